@@ -54,6 +54,8 @@ def main():
         jobs = int(sys.argv[sys.argv.index("--jobs") + 1])
     man = json.load(open(os.path.join(VERIF, "MANIFEST.json")))
     props = [c["property_id"] for c in man["checks"]]
+    if "--props" in sys.argv:      # a slice of the matrix (results not recorded)
+        props = sys.argv[sys.argv.index("--props") + 1].split(",")
     ds = sorted(glob.glob(os.path.join(VERIF, "refactors", "*", "patch.diff")))
     if only:
         ds = [d for d in ds if only in os.path.basename(os.path.dirname(d))]
@@ -69,7 +71,7 @@ def main():
                 print("%-12s FIRED %s" % (name, res.get("fired") or res.get("error")))
     subprocess.run(["git", "-C", "/repo", "worktree", "prune"],
                    stdout=subprocess.DEVNULL, stderr=subprocess.DEVNULL)
-    if not only:
+    if not only and "--props" not in sys.argv:
         json.dump(out, open(os.path.join(VERIF, "refactors", "RESULTS.json"), "w"), indent=1, sort_keys=True)
     return rc
 
